@@ -792,7 +792,17 @@ class Interp:
             return Some(pay) if good else NONE
         if name == "err" and not is_opt:
             return NONE if good else Some(pay)
-        if name in ("as_ref", "as_mut", "as_deref", "copied", "cloned"):
+        if name in ("as_ref", "as_mut") and a0 is not None and a0[0] == "ref":
+            # Option<T> behind a reference -> Option<&T>: the payload is a reference INTO the original
+            if not good and is_opt:
+                return NONE
+            loc = a0[1]
+            ploc = loc[:-1] + (tuple(loc[-1]) + (("f", 0, None),),)
+            return Adt(d0[1], d0[2], {0: ("ref", ploc)})
+        if name in ("as_deref", "as_deref_mut") and good:
+            inner = pay
+            return Adt(d0[1], d0[2], {0: inner if (inner is not None and inner[0] == "ref") else pay})
+        if name in ("as_ref", "as_mut", "as_deref", "as_deref_mut", "copied", "cloned"):
             return d0
         if name == "take" and a0 is not None and a0[0] == "ref":
             self.write_loc(a0[1], NONE)
